@@ -82,7 +82,8 @@ class Weighting(object):
 
     def __hash__(self):
         """Return ``hash(self)``."""
-        return hash((type(self), self.impl, self.exponent))
+        # No `type(self)` here since `__eq__` does not compare types either
+        return hash((Weighting, self.impl, self.exponent))
 
     def equiv(self, other):
         """Test if ``other`` is an equivalent weighting.
